@@ -32,7 +32,12 @@ type c11scenario struct {
 type evRec struct {
 	Hash   string
 	Fields string
+	// raw is the very slice the websocket channel handed to the publisher (not a copy): a broker
+	// keeps it - in the channel history, in the clients' write queues - after Publish returns
+	raw []byte
 }
+
+func (e evRec) String() string { return e.Hash + "/" + e.Fields }
 
 type sink struct {
 	name   string
@@ -106,6 +111,7 @@ func (p *c11pub) Publish(channel string, data []byte, _ ...centrifuge.PublishOpt
 	if channel != "headers" {
 		p.sink.events = append(p.sink.events, evRec{Hash: "?", Fields: "published to channel " + channel})
 	} else if r, err := jsonFields(data); err == nil {
+		r.raw = data
 		p.sink.events = append(p.sink.events, r)
 	} else {
 		p.sink.events = append(p.sink.events, evRec{Hash: "?", Fields: err.Error()})
@@ -259,6 +265,12 @@ func runC11(rep *core.Report, sc c11scenario, prefix []int, seen map[string]bool
 				viol("event_for_unstored/"+sk.name, "an event was emitted for a submission that stored nothing (duplicate, forbidden or failed)", nil, e.Fields)
 			} else if e.Fields != w {
 				viol("event_fields/"+sk.name, "event fields differ from the stored header", w, e.Fields)
+			}
+			// what the broker still holds when everything has been delivered must be what was published
+			if e.raw != nil {
+				if again, err := jsonFields(e.raw); err != nil || again.Fields != e.Fields {
+					viol("event_payload_changed_after_publish/"+sk.name, "the bytes handed to the publisher for one event were overwritten afterwards (the broker's history and write queues hold that slice)", e.Fields, string(e.raw))
+				}
 			}
 		}
 		for h := range want {
